@@ -2232,7 +2232,11 @@ fn check_cff2_instance(e: &Cff2Expect<'_>, out_bytes: &[u8], loc: &[i16], agg: &
 }
 
 pub fn check_cff2_case(case: &Cff2Case, rec: &mut Rec) -> CaseResult {
-    let b = c18::build(&case.cs);
+    // half of the fonts use a non-canonical (but legal) CFF2 container layout (headerSize > 5,
+    // wide offSizes, reordered DICT operators, gaps, trailing VariationStore bytes)
+    let lseed = if case.cs.seed & 1 == 1 { Some(case.cs.seed.rotate_left(17) ^ 0x9E37_79B9_7F4A_7C15) } else { None };
+    let b = c18::build_with(&case.cs, &c18::layout_of(lseed));
+    rec.class_if(lseed.is_some(), "cff2:non-canonical-layout");
     let vs = b.vstore.as_ref().expect("variable C18 case has a VariationStore");
     let n_axes = case.axes.len();
     let cff2_mode4 = b.glyphs.len() >= 2 && (case.hmtx_seed >> 1) % 8 == 7;
